@@ -115,6 +115,16 @@ Theorem C18_residue : forall g tr s t f a,
 Proof. exact residue. Qed.
 Print Assumptions C18_residue.
 
+(* Timer state machine: in EVERY reachable state, a request whose connection has been given back (response
+   complete - read by the caller or still waiting in the buffer - or failed) has no armed timer, holds no slot and
+   has no writer task, whatever the order of end-of-body, pause / resume, body-written and read events was: no
+   timer is ever left armed on behalf of a connection that idles in the pool. *)
+Theorem C18_released_no_timers : forall g tr s t,
+  0 < u g -> Forall wf_event tr -> run g init tr = Some s -> live (pcs (tasks s t)) = false ->
+  tm (tasks s t) = no_timers /\ ~ In t (acq s) /\ writer (tasks s t) = false.
+Proof. exact released_no_timers. Qed.
+Print Assumptions C18_released_no_timers.
+
 (* the pool accounting is exact in every reachable state (the C07 coherence is re-established after every
    failure): slots = requests being established or served, queue = requests waiting, idle connections are open
    and owned by nobody *)
@@ -140,7 +150,7 @@ Print Assumptions C18_failed_only_by_own_event.
 (* step form, with the failure time: the failure is stamped with the instant of the causing event *)
 Theorem C18_failure_stamped_now : forall g tr s e s' t f a,
   run g init tr = Some s -> step g s e = Some s' -> pcs (tasks s' t) = PFailed f a ->
-  pcs (tasks s t) = PFailed f a \/ (cause t f e /\ a = now s /\ live (pcs (tasks s t)) = true).
+  pcs (tasks s t) = PFailed f a \/ (cause t f e /\ a = now s /\ pending (pcs (tasks s t)) = true).
 Proof. exact failure_stamped_now. Qed.
 Print Assumptions C18_failure_stamped_now.
 
@@ -213,6 +223,18 @@ Example C18_example_bound_hyps :
     pcs (tasks s 2%N) = PWaitSlot /\ total_when 16 2 130 80 = 144.
 Proof. eexists. split; [vm_compute; reflexivity|]. vm_compute. repeat split; reflexivity. Qed.
 Print Assumptions C18_example_bound_hyps.
+
+(* the whole response arrives before the caller reads (PRecv): the connection is pooled at once with no timer
+   left, the next request reuses it after an idle period longer than sock_read and completes; then the first
+   caller reads its buffered body *)
+Example C18_example_received_before_read :
+  exists s, run ex_g init [EStart 0%N (ex_cfg None None None (Some 20) false); EDns; EConn 0%N; EData 0%N KHead;
+                          EData 0%N KEnd; EAdv 45; EStart 1%N (ex_cfg None None None (Some 20) false);
+                          EData 1%N KHead; ERead 1%N; EData 1%N KEnd; ERead 0%N] = Some s /\
+    pcs (tasks s 0%N) = PDone /\ pcs (tasks s 1%N) = PDone /\ idle s = [0%N] /\ nconn s = 1%N /\
+    tm (tasks s 0%N) = no_timers.
+Proof. eexists. split; [vm_compute; reflexivity|]. vm_compute. repeat split; reflexivity. Qed.
+Print Assumptions C18_example_received_before_read.
 
 (* the hypotheses of C18_session_usable hold after a history in which every request failed *)
 Example C18_example_usable_hyps :
